@@ -1,7 +1,79 @@
-(** C08 — theorems (glue only). *)
-From Akita Require Import Lib.Base Lib.Json C08.Model.
+(** C08 — runtime values survive serialization unchanged: theorems.
+    The obligation over the library's own types is GENERATED on every run (GenTypes.v by
+    reflection + GenOb.v, see lib/props/c08.py): [forallb lossless gen_types = true] by
+    vm_compute, lifted to every well-formed value by [c08_lossless_sound]. *)
+From Akita Require Import Lib.Base Lib.Json Lib.JsonProofs C08.Model C08.Exec C08.Proofs.
 Local Open Scope N_scope.
 
-Theorem c08_skeleton : decode_slice [] JNull = inr [].
-Proof. reflexivity. Qed.
-Print Assumptions c08_skeleton.
+(** every well-formed value (integers in range, valid UTF-8 strings, finite floats; fields
+    tagged json:"-" are outside the value) of a lossless type comes back equal *)
+Theorem c08_lossless_sound :
+  forall t, lossless t = true -> forall v, wf t v = true -> decode t (encode t v) = Some v.
+Proof. exact lossless_sound. Qed.
+Print Assumptions c08_lossless_sound.
+
+(** EncodeSlice/DecodeSlice: a heterogeneous list of registered, lossless element types comes
+    back with the same concrete types (tags) and equal values, in the same order *)
+Theorem c08_codec_slice_roundtrip :
+  forall (r : registry) (xs : list elem),
+    Forall (elem_ok r) xs -> slice_roundtrip r xs = inr (map untyped xs).
+Proof. exact slice_roundtrip_ok. Qed.
+Print Assumptions c08_codec_slice_roundtrip.
+
+Theorem c08_codec_unknown_type_rejected :
+  forall r tag t v, valid_utf8 tag = true -> reg_find r tag = None ->
+                    slice_roundtrip r [(tag, t, v)] = inl (EUnknownType tag).
+Proof. exact slice_unknown_type. Qed.
+Print Assumptions c08_codec_unknown_type_rejected.
+
+(** a State inside a component checkpoint *)
+Theorem c08_component_state_roundtrip :
+  forall t v, lossless t = true -> wf t v = true -> component_state_roundtrip t v = Some v.
+Proof. exact component_state_ok. Qed.
+Print Assumptions c08_component_state_roundtrip.
+
+(** bounded buffers, multi-stage pipelines and LRU sets embedded in state: their DTOs are
+    lossless for every lossless element type *)
+Theorem c08_buffer_lossless : forall e, lossless e = true -> lossless (buffer_ty e) = true.
+Proof. exact buffer_lossless. Qed.
+Print Assumptions c08_buffer_lossless.
+
+Theorem c08_pipeline_lossless : forall e, lossless e = true -> lossless (pipeline_ty e) = true.
+Proof. exact pipeline_lossless. Qed.
+Print Assumptions c08_pipeline_lossless.
+
+Theorem c08_lruset_lossless : lossless lruset_ty = true.
+Proof. exact lruset_lossless. Qed.
+Print Assumptions c08_lruset_lossless.
+
+(** outside the hypotheses the statement is false of the code: *)
+Theorem c08_invalid_utf8_refuted : exists v, roundtrip TString v <> Some v.
+Proof. exists (VStr [255]). rewrite invalid_utf8_altered. discriminate. Qed.
+Print Assumptions c08_invalid_utf8_refuted.
+
+Theorem c08_lruset_nil_keymap_refuted : exists v, roundtrip lruset_ty v <> Some v.
+Proof.
+  exists (VCustom (VStruct [VInt 0; VSlice None; VInt 0; VSlice None; VMap None])).
+  rewrite lruset_nil_map_altered. discriminate.
+Qed.
+Print Assumptions c08_lruset_nil_keymap_refuted.
+
+(** regression for the fixed omitempty fields: the old tag loses an empty non-nil slice *)
+Theorem c08_omitempty_old_refuted :
+  (exists v, wf t_rsp_old v = true /\ roundtrip t_rsp_old v <> Some v) /\ lossless t_rsp = true.
+Proof.
+  destruct omitempty_old as (_ & B & C & _). split; [|exact C].
+  exists (VStruct [VSlice (Some [])]). split; [reflexivity|]. rewrite B. discriminate.
+Qed.
+Print Assumptions c08_omitempty_old_refuted.
+
+Theorem c08_model_agreement_implies_property :
+  forall c, lossless (c_ty c) = true -> wf (c_ty c) (c_val c) = true -> valid_utf8 (c_tag c) = true ->
+            check_case c = true -> holds_on c = true.
+Proof. exact model_agreement_implies_property. Qed.
+Print Assumptions c08_model_agreement_implies_property.
+
+Example c08_codec_slice_roundtrip_nonvacuous :
+  lossless t_msg = true /\ wf t_msg v_msg = true /\
+  slice_roundtrip [(bs "pkg.Msg", t_msg)] [(bs "pkg.Msg", t_msg, v_msg)] = inr [(bs "pkg.Msg", v_msg)].
+Proof. exact msg_example. Qed.
